@@ -37,7 +37,8 @@ struct Ctx {
     bool two_threads = false;
     struct aws_allocator *alloc = nullptr;
     // a logger that ships its lines through the same ring (legal on the acquiring thread): dormant unless the ring code logs
-    bool ring_ready = false, in_logger = false;
+    bool ring_ready = false, in_logger = false, handler_on = false;
+    int handler_budget = 8;
     int acq_tid = -1;
     uint64_t log_ctr = 0, nested_acquires = 0;
 };
@@ -173,6 +174,24 @@ int rl_set_level(struct aws_logger *, enum aws_log_level) { return AWS_OP_SUCCES
 struct aws_logger_vtable g_rl_vtable = {rl_log, rl_level, rl_clean_up, rl_set_level};
 struct aws_logger g_ring_logger = {&g_rl_vtable, nullptr, nullptr};
 
+// ---- error handler that files an error record through the ring under test (legal on the acquiring thread): it runs whenever the library
+// raises an error on that thread - for a failing acquire that is the last thing the call does
+void ring_error_handler(int err, void *ud) {
+    (void)err;
+    Ctx *c = (Ctx *)ud;
+    if (!c || !c->ring_ready || c->in_logger || !c->handler_on || c->handler_budget <= 0 || sim::self() != c->acq_tid) return;
+    c->handler_budget--;
+    c->in_logger = true;
+    sim::probe("error_handler_acquired_from_the_ring");
+    c->nested_acquires++;
+    sim::Op op;
+    op.kind = OP_ACQ; op.thr = 0;
+    size_t lim = c->ring_size < 24 ? c->ring_size : 24;
+    op.a = (int64_t)(1 + (c->log_ctr++ * 13) % lim);
+    do_acquire(*c, op);
+    c->in_logger = false;
+}
+
 void do_release_next(Ctx &c) {
     if (c.next_release >= c.entries.size()) return;
     Entry &e = c.entries[c.next_release];
@@ -243,6 +262,8 @@ RunInfo run(const sim::Plan &plan) {
     c.acq_tid = sim::self();
     c.ring_ready = true;
     aws_logger_set(&g_ring_logger);
+    c.handler_on = plan.get("error_handler", 0) != 0;
+    aws_error_handler_fn *old_handler = c.handler_on ? aws_set_global_error_handler_fn(ring_error_handler, &c) : nullptr;
     if (c.two_threads) {
         struct aws_thread ta, tr;
         aws_thread_init(&ta, alloc);
@@ -274,6 +295,7 @@ RunInfo run(const sim::Plan &plan) {
             sim::violation("c15:size", "acquire(capacity+1) succeeded");
     }
     c.ring_ready = false;
+    if (c.handler_on) aws_set_global_error_handler_fn(old_handler, nullptr);
     aws_logger_set(nullptr);
     g15 = nullptr;
     aws_ring_buffer_clean_up(&c.ring);
@@ -308,6 +330,7 @@ void gen(uint64_t seed, int tier, sim::Plan &p) {
     p.cfg["ring_size"] = rs;
     bool two = r.chance(0.8);
     p.cfg["two_threads"] = two;
+    if (r.chance(0.25)) p.cfg["error_handler"] = 1; // an error handler that acquires from the ring when an error is raised on the acquiring thread
     hgen::sched_config(r, p, two, false, true, false, -1);
     int nacq = (int)r.range(2, tier ? 200 : 40);
     if (r.chance(0.3)) nacq = (int)r.range(2, 8);
